@@ -271,6 +271,20 @@ Proof.
   unfold column. rewrite get_map_seq by exact Hj. reflexivity.
 Qed.
 
+(* a bin's sum depends only on the members of that bin: whatever the other entries of the column are
+   (huge, tiny, infinite in the implementation), they do not enter *)
+Lemma dist_adjoint_independent pre n post nbin pindex x x' i1 b i3 :
+  length pindex = n -> Forall (fun i => i < nbin) pindex ->
+  i1 < pre -> b < nbin -> i3 < post ->
+  (forall j, j < n -> nth j pindex 0%nat = b -> get x (idx3 n post i1 j i3) = get x' (idx3 n post i1 j i3)) ->
+  get (dist_adjoint R r0 radd pre n post nbin pindex x) (idx3 nbin post i1 b i3)
+  = get (dist_adjoint R r0 radd pre n post nbin pindex x') (idx3 nbin post i1 b i3).
+Proof.
+  intros HL Hall H1 Hb H3 Hx. rewrite !dist_adjoint_get by assumption.
+  apply Sum_ext. intros j Hj. destruct (nth j pindex 0%nat =? b) eqn:E; [|reflexivity].
+  apply Hx; [exact Hj|]. apply Nat.eqb_eq. exact E.
+Qed.
+
 (* ---- Field.weight ------------------------------------------------------------------------------ *)
 Local Notation space := (space R).
 Local Notation pw := (pw R rinv).
